@@ -205,6 +205,7 @@ func runC10(c *Ctx) {
 
 	c10ReflectValidity(c, scope)
 	c10NoReentry(c)
+	c10ParserPerConnection(c)
 
 	// ---------------------------------------------------------------- D2
 	c.Rule("C10-D2", "handlers see only well-formed input: after every decode(...) the number of values is compared with the number of declared parameters before a handler is invoked "+
@@ -723,6 +724,55 @@ func c10NoReentry(c *Ctx) {
 		}
 		if n == 0 {
 			anchorFail("C10-D8: %s does not lock parserMu (lock not recognised)", fnn)
+		}
+	}
+}
+
+// c10ParserPerConnection: the reassembly state of a half-received binary packet
+// lives in the Parser.  One peer that withholds an attachment must not make the
+// next frame of ANOTHER connection disappear as that attachment: every
+// connection owns its parser.
+func c10ParserPerConnection(c *Ctx) {
+	p := c.P
+	c.Rule("C10-D9", "each connection decodes with its own parser: the Creator returned by jsonparser.NewCreator allocates a new Parser on every call (the value it returns is allocated inside the closure, not captured), "+
+		"and both newServerConn and the Manager obtain their parser by calling the creator — a shared Parser shares the attachment reassembly state, so one peer that withholds an attachment swallows other connections' frames", 3)
+	nc := p.Fn("jsonparser", "NewCreator")
+	n := 0
+	for _, cl := range nc.AnonFuncs {
+		if cl.Signature.Results().Len() != 1 {
+			continue
+		}
+		for _, ret := range effReturns(cl) {
+			n++
+			v := ret.Results[0]
+			for {
+				if mi, ok := v.(*ssa.MakeInterface); ok {
+					v = mi.X
+					continue
+				}
+				break
+			}
+			al, isAlloc := v.(*ssa.Alloc)
+			c.Ob("C10-D9", "jsonparser.NewCreator/fresh-parser-per-call", ret.Pos(), isAlloc && al.Parent() == cl && al.Heap, "the creator returns "+Term(v)+", which is not allocated by this call: every connection would decode with the same Parser")
+		}
+	}
+	if n == 0 {
+		c.Ob("C10-D9", "jsonparser.NewCreator/fresh-parser-per-call", nc.Pos(), false, "NewCreator does not return a creator closure that builds a Parser")
+	}
+	for _, a := range []struct{ fn, field string }{{"newServerConn", "serverConn"}, {"NewManager", "Manager"}} {
+		fn := p.Fn("sio", a.fn)
+		pf := p.Field("sio", a.field, "parser")
+		sts := []ssa.Instruction{}
+		for _, f := range WithAnons(fn) {
+			sts = append(sts, findInstrs(f, fieldStorePred(pf))...)
+		}
+		if len(sts) == 0 {
+			c.Ob("C10-D9", "sio."+a.fn+"/own-parser", fn.Pos(), false, "the constructor does not set "+a.field+".parser")
+			continue
+		}
+		for _, st := range sts {
+			t := Term(st.(*ssa.Store).Val)
+			c.Ob("C10-D9", "sio."+a.fn+"/own-parser", st.Pos(), strings.HasPrefix(t, "dyn:") && strings.HasSuffix(t, "()"), a.field+".parser is set to "+t+": it must be the result of calling the parser creator for this connection")
 		}
 	}
 }
